@@ -1348,3 +1348,16 @@ package ring
 
 //@ afunc AutomorphismNTTIndex
 //@   trusted opaque at the abstract level: the index table of a Galois element, or an error
+
+// ---- read / read-and-add share one body: every store into the polynomial goes through the callback (C17) ----
+//@ storesvia UniformSampler.read pol f
+//@   property C17
+
+//@ storesvia GaussianSampler.read pol f
+//@   property C17
+
+//@ storesvia TernarySampler.sampleProba pol f
+//@   property C17
+
+//@ storesvia TernarySampler.sampleSparse pol f
+//@   property C17
